@@ -19,6 +19,8 @@ PID = "C20"
 SETUP = {
     "Dimension": ("A, B = measured.Length**7, measured.Time**5", "A / B", "measured.Dimension"),
     "Prefix": ("A, B = measured.Prefix(10, 17), measured.Prefix(10, 20)", "A * B", "measured.Prefix"),
+    # a prefix whose exponent is a float (what mixing bases produces): constructors may treat it apart
+    "PrefixFloat": ("A, B = measured.Prefix(2, 17), measured.Prefix(10, 21)", "A * B", "measured.Prefix"),
     "Unit": ("A, B = measured.Length.unit('c20-a', 'c20-a'), measured.Time.unit('c20-b', 'c20-b')\n"
              "_ = (A.dimension * B.dimension, A.prefix * B.prefix)", "A * B", "measured.Unit"),
     "Logarithm": ("A, B = measured.Logarithm(7.0), measured.Prefix(10, -5)", "A * B", "measured.Logarithm"),
@@ -27,9 +29,15 @@ SETUP = {
 }
 
 
+CLASS_OF = {"PrefixFloat": "Prefix"}
+
+
 def env_for(cname: str) -> Dict[str, Any]:
     import measured
 
+    if cname == "PrefixFloat":
+        return {"name": None, "symbol": None, "self": types.SimpleNamespace(_initialized=False), "base": 2,
+                "exponent": 86.7603377}
     slf = types.SimpleNamespace(_initialized=False)
     common = {"name": None, "symbol": None, "self": slf}
     if cname == "Dimension":
@@ -74,11 +82,13 @@ def constructor_call(cname: str) -> Any:
     operators' lru_cache wrappers are bypassed: extraction re-executes the call many times)."""
     import measured
 
-    cls = getattr(measured, cname)
+    cls = getattr(measured, CLASS_OF.get(cname, cname))
     if cname == "Dimension":
         args: Tuple = ((0, 7, -5) + (0,) * (len(measured.Number.exponents) - 3),)
     elif cname == "Prefix":
         args = (10, 37)
+    elif cname == "PrefixFloat":
+        args = (2, 86.7603377)
     elif cname == "Unit":
         a, b = measured.Length.unit("c20-xa", "c20-xa"), measured.Time.unit("c20-xb", "c20-xb")
         args = (measured.IdentityPrefix, {a: 1, b: 1}, measured.Length * measured.Time)
@@ -147,10 +157,13 @@ def tracer_for(k):
             return local
         return None
     return glob
+raised = [None] * N
 def body(k):
     sys.settrace(tracer_for(k))
     try:
         results[k] = {expr}
+    except Exception as e:
+        raised[k] = type(e).__name__ + ': ' + str(e)
     finally:
         sys.settrace(None)
         events[k].put('done')
@@ -166,6 +179,8 @@ free_run.set()
 for k in range(N):
     for _ in range(10000): go[k].release()
 for t in ts: t.join(30)
+if any(raised):
+    print('REPRODUCED: a thread evaluating the expression raised', raised); sys.exit(1)
 later = {expr}
 table_entries = [v for v in cls._known.values() if v is later or any(v is r for r in results)]
 print('objects returned to the threads:', [hex(id(r)) for r in results], ' later evaluation:', hex(id(later)))
@@ -182,7 +197,7 @@ def worker(task: Tuple) -> Dict[str, Any]:
     import measured
     import measured.systems  # noqa
 
-    cls = getattr(measured, cname)
+    cls = getattr(measured, CLASS_OF.get(cname, cname))
     atomic, store_lines = table_setdefault(cls)
     # the step system: every trace of the real constructor under a scripted table
     import os
@@ -415,7 +430,7 @@ def publication_worker(cname: str) -> Dict[str, Any]:
     import measured.systems  # noqa
     from engine import initbmc
 
-    cls = getattr(measured, cname)
+    cls = getattr(measured, CLASS_OF.get(cname, cname))
     res = initbmc.analyse(cls, constructor_call(cname), (os.path.dirname(measured.__file__),))
     res["class"] = cname
     return res
@@ -425,8 +440,9 @@ def publication_side_condition(rep: report.Report) -> None:
     """What the intern table hands out is finished, or the receiving thread finishes it: no thread
     returns from the constructor (or reads an attribute) while an attribute is unassigned
     (engine/initbmc.py)."""
-    results = par.run("props.c20", "publication_worker", list(SETUP))
-    for cname, r in zip(SETUP, results):
+    pub = [c for c in SETUP if c not in CLASS_OF]
+    results = par.run("props.c20", "publication_worker", pub)
+    for cname, r in zip(pub, results):
         key = ("publication", cname)
         name = f"{cname}: no line-level schedule of a creating and a finding thread hands out an object with an attribute unassigned"
         if r["result"] == "not-applicable":
@@ -470,7 +486,7 @@ def publication_side_condition(rep: report.Report) -> None:
                       f"{cname}: with the creating thread held at its line {found} inside the package, a thread "
                       f"evaluating the same expression {what} (model schedule: {r['trace'][:8]})",
                       publication_replay(cname, found, r["attrs"]))
-    rep.functions.update(f"measured.{c}.__init__" for c in SETUP)
+    rep.functions.update(f"measured.{c}.__init__" for c in pub)
 
 
 def main(tier: str, selftest_cases: int = 0) -> int:
@@ -502,7 +518,7 @@ def main(tier: str, selftest_cases: int = 0) -> int:
                     "schedule": r.get("schedule")}, 5)
         rep.functions.update(f"measured.{cname}: {f}" for f in r["functions"])
         rep.coverage.setdefault("ast_cross_check", {})[f"{cname}/{t}"] = r["ast_model"]
-    rep.functions.update([f"measured.{c}.__new__" for c in SETUP])
+    rep.functions.update([f"measured.{CLASS_OF.get(c, c)}.__new__" for c in SETUP])
     rep.coverage.update(states=max(states, 1), transitions=max(transitions, 1),
                         traces_validated_against_impl=validated, exhaustive=True,
                         selftest_cases=selftest_cases)
